@@ -120,6 +120,13 @@ def all_proofs():
           mutants=[('backslash_guard_preproc_only', r'if \(  \(chunk.GetStr\(\).size\(\) > 1\)', 'if (  cpd.in_preproc != CT_NONE && (chunk.GetStr().size() > 1)', 'postcondition|loop_invariant'),
                    ('strips_ignored', r'if \(chunk.GetType\(\) != CT_IGNORED\)', 'if (true)', 'postcondition'),
                    ('keeps_tabs', r"\|\| \(chunk.GetStr\(\)\[chunk.GetStr\(\).size\(\) - 1\] == '\\t'\)\)\)", '))', 'postcondition')]),
+        Proof('tag_compare', impl='contracts/shared/crstring.impl.cpp', spec='contracts/shared/crstring.spec.c', harness='h_tag_compare', enforce='tag_compare/tag_compare_contract', canaries=2, rules={},
+              loops=[dict(fn='tag_compare', id=0, vars=['a_idx', 'b_idx', 'len', 'd'], assigns='a_idx, b_idx, len',
+                          inv='len <= %s && a_idx == %s + (%s - len) && b_idx == %s + (%s - len) && (g_tc_K < %s - len ==> DI_data(d)[%s + g_tc_K] == DI_data(d)[%s + g_tc_K])' % (E('len'), E('a_idx'), E('len'), E('b_idx'), E('len'), E('len'), E('a_idx'), E('b_idx')),
+                          decreases='len')],
+              functions=['tokenize.cpp:tag_compare'], expect=['tag_compare_contract.postcondition', 'loop_invariant_step'],
+              mutants=[('indices_not_advanced', r'a_idx\+\+;\n', '', 'postcondition|loop_invariant'),
+                       ('compares_with_itself', r'if \(d\[a_idx\] != d\[b_idx\]\)', 'if (d[a_idx] != d[a_idx])', 'postcondition|loop_invariant')]),
         P('tokenize_tail', enforce='tokenize_tail/tokenize_tail_contract', defines=['REAL_CSTR_ASSIGN=1'],
           functions=['tokenize.cpp:tokenize (tail fragment: choice of cpd.newline)', 'unc_text.cpp:UncText::operator=(const char*)', 'unc_text.cpp:UncText::set(const char*)'],
           expect=['tokenize_tail_contract.postcondition'],
